@@ -220,6 +220,7 @@ pub fn load(image: &[u8], wrapper: Wrapper, rp: &ReaderPlan, limit: Option<u64>,
                     .map(|(o, t)| (*o - split as u64, *t))
                     .collect(),
                 error: rp.error.map(|(at, k, s)| (at.saturating_sub(split as u64), k, s)),
+                vectored: rp.vectored,
             };
             rp2.eintr.sort();
             let head: &[u8] = &image[..split];
